@@ -222,7 +222,11 @@ impl Drop for AtRuleDest<'_> {
         let name = std::mem::take(&mut self.name);
         let args = std::mem::replace(&mut self.args, Value::Null);
         if let Some(rule) = self.rule.take() {
-            body.insert(0, rule.into());
+            if rule.body.is_empty() {
+                body.insert(0, rule.into());
+            } else {
+                body.push(rule.into());
+            }
         }
         let result = AtRule::new(name, args, Some(body));
         if let Err(err) = self.parent.push_item(result.into()) {
@@ -281,6 +285,9 @@ impl CssDestination for AtRuleDest<'_> {
     }
 
     fn push_item(&mut self, item: Item) -> Result {
+        if !matches!(item, Item::Separator) {
+            commit_rule(&mut self.rule, &mut self.body);
+        }
         self.body.push(match item {
             Item::Comment(c) => c.into(),
             Item::Import(i) => i.into(),
@@ -343,7 +350,7 @@ impl Drop for AtMediaDest<'_> {
         if let Some(rule) = self.rule.take()
             && !rule.body.is_empty()
         {
-            body.insert(0, rule.into());
+            body.push(rule.into());
         }
         let result = MediaRule::new(args, body);
         if let Err(err) = self.parent.push_item(result.into()) {
@@ -404,6 +411,9 @@ impl CssDestination for AtMediaDest<'_> {
     }
 
     fn push_item(&mut self, item: Item) -> Result {
+        if !matches!(item, Item::Separator) {
+            commit_rule(&mut self.rule, &mut self.body);
+        }
         self.body.push(match item {
             Item::Comment(c) => c.into(),
             Item::Import(i) => i.into(),
@@ -439,6 +449,17 @@ impl CssDestination for AtMediaDest<'_> {
         } else {
             Err(Invalid::GlobalCustomProperty)
         }
+    }
+}
+
+/// Move what is collected in `rule` so far to `body`, so that an item
+/// pushed after it comes after it in the output as well.
+fn commit_rule(rule: &mut Option<Rule>, body: &mut Vec<AtRuleBodyItem>) {
+    if let Some(rule) = rule
+        && !rule.body.is_empty()
+    {
+        let fresh = Rule::new(rule.selectors.clone());
+        body.push(std::mem::replace(rule, fresh).into());
     }
 }
 
